@@ -6,6 +6,8 @@
 (* domain by harness/project.py:                                           *)
 (*   id, func, ddof, q, vals, codes, req, sort, fill, min_count            *)
 (*   groups  (labels returned)      out (values returned, one per slot)    *)
+(*   gmode   "exact": labels must equal the sort contract; "perm": any     *)
+(*           order (chunked input, sort=False, no expected_groups); "none"  *)
 (* Every line is checked against Ref!RefGroups / Ref!RefGroupby.  Verdicts *)
 (* are total: a failing line is reported (id + failing clauses) and the    *)
 (* run continues, so every line of the file is examined.                   *)
@@ -23,13 +25,21 @@ ExpectedGroups(r) == RefGroups(r.codes, r.req, r.sort)
 \* the set of clause names that fail on record r
 Failed(r) ==
   LET eg == ExpectedGroups(r)
-      groupsOk == (r.groups = eg)
+      groupsOk == IF r.gmode = "perm"
+                  THEN SeqToSet(r.groups) = SeqToSet(eg) /\ Len(r.groups) = Len(eg)   \* any order, nothing lost or repeated
+                  ELSE r.groups = eg
       lenOk == Len(r.out) = Len(r.groups)
       ev == RefGroupby(r.func, r.vals, r.codes, r.groups, r.fill, r.min_count, Kw(r))
-      valuesOk == lenOk /\ \A k \in 1..Len(r.groups) : Matches(ev[k], r.out[k])
+      \* std is carried as its square (no square roots in the specification); a slot that receives
+      \* the user's fill is compared with the raw (unsquared) value instead
+      isStd == r.func \in {"std", "nanstd"}
+      slotOk(k) == IF isStd /\ RefIsFill(r.vals, r.codes, r.groups[k], r.min_count)
+                   THEN Matches(ev[k], r.raw[k])
+                   ELSE Matches(ev[k], r.out[k])
+      valuesOk == lenOk /\ \A k \in 1..Len(r.groups) : slotOk(k)
       sortedOk == (r.sort => StrictlyAscending(r.groups)) /\ NoRepeats(r.groups)
-  IN  (IF r.check_groups /\ ~groupsOk THEN {"groups"} ELSE {})
-      \cup (IF r.check_groups /\ ~sortedOk THEN {"order"} ELSE {})
+  IN  (IF r.gmode # "none" /\ ~groupsOk THEN {"groups"} ELSE {})
+      \cup (IF r.gmode # "none" /\ ~sortedOk THEN {"order"} ELSE {})
       \cup (IF ~lenOk THEN {"shape"} ELSE {})
       \cup (IF lenOk /\ ~valuesOk THEN {"values"} ELSE {})
 
